@@ -174,8 +174,10 @@ package flv
 //@   assert[call:WriteFlvTag] len(tag.Data) == 5 + 38 + len(h265p.meta.Vps) + len(h265p.meta.Sps) + len(h265p.meta.Pps) && tag.Data[0] == (FrameTypeKeyFrame<<4)|CodecIDHEVC && tag.Data[1] == H2645PacketTypeSequenceHeader && be24(tag.Data, 2) == 0
 //@   assert[call:WriteFlvTag] tag.Data[5] == 1 && tag.Data[5+21]&3 == 3 && tag.Data[5+22] == 3
 //@   assert[call:WriteFlvTag] tag.Data[5+23] == hevc.NalVps && be16(tag.Data, 5+24) == 1 && be16(tag.Data, 5+26) == len(h265p.meta.Vps) && forall(i, 0, len(h265p.meta.Vps), tag.Data[5+28+i] == h265p.meta.Vps[i])
-//@   assert[call:WriteFlvTag] tag.Data[5+28+len(h265p.meta.Vps)] == hevc.NalSps && be16(tag.Data, 5+29+len(h265p.meta.Vps)) == 1 && be16(tag.Data, 5+31+len(h265p.meta.Vps)) == len(h265p.meta.Sps) && forall(i, 0, len(h265p.meta.Sps), tag.Data[5+33+len(h265p.meta.Vps)+i] == h265p.meta.Sps[i])
-//@   assert[call:WriteFlvTag] tag.Data[5+33+len(h265p.meta.Vps)+len(h265p.meta.Sps)] == hevc.NalPps && be16(tag.Data, 5+34+len(h265p.meta.Vps)+len(h265p.meta.Sps)) == 1 && be16(tag.Data, 5+36+len(h265p.meta.Vps)+len(h265p.meta.Sps)) == len(h265p.meta.Pps) && forall(i, 0, len(h265p.meta.Pps), tag.Data[5+38+len(h265p.meta.Vps)+len(h265p.meta.Sps)+i] == h265p.meta.Pps[i])
+//@   assert[call:WriteFlvTag] tag.Data[5+28+len(h265p.meta.Vps)] == hevc.NalSps && be16(tag.Data, 5+29+len(h265p.meta.Vps)) == 1 && be16(tag.Data, 5+31+len(h265p.meta.Vps)) == len(h265p.meta.Sps)
+//@   assert[call:WriteFlvTag] forall(i, 0, len(h265p.meta.Sps), tag.Data[5+33+len(h265p.meta.Vps)+i] == h265p.meta.Sps[i])
+//@   assert[call:WriteFlvTag] tag.Data[5+33+len(h265p.meta.Vps)+len(h265p.meta.Sps)] == hevc.NalPps && be16(tag.Data, 5+34+len(h265p.meta.Vps)+len(h265p.meta.Sps)) == 1 && be16(tag.Data, 5+36+len(h265p.meta.Vps)+len(h265p.meta.Sps)) == len(h265p.meta.Pps)
+//@   assert[call:WriteFlvTag] forall(i, 0, len(h265p.meta.Pps), tag.Data[5+38+len(h265p.meta.Vps)+len(h265p.meta.Sps)+i] == h265p.meta.Pps[i])
 //@   ensures len(ghostSeq(h265p.tagWriter, "tags")) == old(len(ghostSeq(h265p.tagWriter, "tags"))) + 1
 // the H.264 sequence header tag: key frame / AVC / sequence header / composition time 0 / timestamp 0, carrying the
 // configuration record of the SPS and PPS the stream currently has
